@@ -44,10 +44,11 @@ def implNats? (t : List String) : Option (List Nat) :=
   if t == ["-"] then some [] else t.mapM nat?
 
 /-! ### verdict combinators -/
+/-- verdict of a list of evaluated clauses; **nothing evaluated = `-`**, never `ok` -/
 def checks (l : List (String × Bool)) : String :=
   match l.find? (fun c => !c.2) with
   | some c => "FAIL:" ++ c.1
-  | none => "ok"
+  | none => if l.isEmpty then "-" else "ok"
 
 /-- the implementation must have raised exactly this outcome -/
 def expectErr (impl : Option (List String)) (clause : String) (e : Err) : String :=
@@ -296,7 +297,10 @@ def step2 (s : St) (name : String) (flags : List String) (vs : List (List Float)
                ("cosW_spec", rabs (gr * gr * A * B - sab * sab) ≤ pow2neg 30 * (A * B)),
                ("cosW_spec", (gr ≥ 0) == (sab ≥ 0) || rabs gr ≤ pow2neg 20)]
             | none => [("cosW_spec", false)]
-          else []
+          else
+            -- a clearly negative weighted sum of squares (negative weights): sqrt gives NaN
+            let sa := Spec.dotW a a (w.map rabs); let sb := Spec.dotW b b (w.map rabs)
+            if A < -(tolAcc * sa) || B < -(tolAcc * sb) then [("cosW_negative_nan", g.isNaN)] else []
         | _, _, _ => [])
   | "kron" =>
     (s, showV (VecTools.kroneckerMult v0 v1), onVec impl "kroneckerMult_spec" fun g =>
@@ -445,7 +449,7 @@ def step2 (s : St) (name : String) (flags : List String) (vs : List (List Float)
             | _, _, _ => none
         match (if t == ["-"] then some [] else pairs t) with
         | some kc =>
-          if !(noNaN v0) then "ok" else
+          if !(noNaN v0) then "-" else
           checks [("countValues_spec", decide (StrictSorted flt (kc.map (·.1))) &&
                     kc.all (fun p => p.2 == (v0.filter (· == p.1)).length && p.2 > 0) &&
                     v0.all (fun x => kc.any (fun p => p.1 == x)))]
@@ -705,11 +709,19 @@ def step (s : St) (op : List String) (impl : Option (List String)) : St × Strin
   | "normw" =>
     (s, showRes showF (VecTools.normW v0 v1), dimOr v0 v1 fun _ => onScalar impl "norm_spec" fun g =>
       match rats? v0, rats? v1, floatToRat? g with
+      | some a, some w, none =>
+        -- a clearly negative weighted sum of squares: sqrt of a negative number is NaN
+        let q := Spec.dotW a a w
+        let sc := Spec.dotW a a (w.map rabs)
+        if q < -(tolAcc * sc) then [("normW_negative_nan", g.isNaN)] else []
       | some a, some w, some gr =>
         if w.all (· ≥ 0) then
           let q := Spec.dotW a a w
           [("norm_spec", gr ≥ 0 && rabs (gr * gr - q) ≤ tolAcc * q + pow2neg 500)]
-        else []
+        else
+          let q := Spec.dotW a a w
+          let sc := Spec.dotW a a (w.map rabs)
+          if q > tolAcc * sc then [("normW_spec", gr ≥ 0 && rabs (gr * gr - q) ≤ tolAcc * sc + pow2neg 500)] else []
       | _, _, _ => [])
   | "cos" =>
     (s, showRes showF (VecTools.cos v0 v1), dimOr v0 v1 fun _ => onScalar impl "cos_range" fun g =>
@@ -769,7 +781,7 @@ def step (s : St) (op : List String) (impl : Option (List String)) : St × Strin
                         | none => true),
                       ("median_sorts", if r.length ≤ 1 then sr == r else decide (IsSortOf rlt r sr))]
             | _, _ => "FAIL:median_spec"
-          | some _, some _, none => "ok"
+          | some _, some _, none => "-"
           | _, _, _ => "FAIL:median_spec"
         | _ => "FAIL:median_spec")
   | "mean" =>
@@ -953,7 +965,7 @@ def step (s : St) (op : List String) (impl : Option (List String)) : St × Strin
     (s, showBool (VecTools.isUnique feq flt v0),
       match rats? v0 with
       | some r => onBool impl "isUnique_iff" (decide (NoDup req r))
-      | none => "ok")
+      | none => "-")
   | "contains" =>
     match v0 with
     | [x] => (s, showBool (VecTools.contains feq v1 x), onBool impl "contains_iff" (v1.any (fun y => y == x)))
@@ -994,12 +1006,12 @@ def step (s : St) (op : List String) (impl : Option (List String)) : St × Strin
       | _, _, _ => [])
   | "containsall" =>
     (s, showBool (VecTools.containsAll feq flt v0 v1),
-      if noNaN v0 && noNaN v1 then onBool impl "containsAll_iff" (v1.all (fun x => v0.any (fun y => y == x))) else "ok")
+      if noNaN v0 && noNaN v1 then onBool impl "containsAll_iff" (v1.all (fun x => v0.any (fun y => y == x))) else "-")
   | "havesame" =>
     (s, showBool (VecTools.haveSameElements feq flt v0 v1),
       match rats? v0, rats? v1 with
       | some a, some b => onBool impl "haveSame_iff" (decide (a.Perm b))
-      | _, _ => "ok")
+      | _, _ => "-")
   -- ------------------------------------------------------------ log space
   | "lse" =>
     (s, showRes showF (LogSpace.logSumExp v0), emptyOr v0 fun _ => onScalar impl "lse_bounds" fun g =>
@@ -1034,32 +1046,50 @@ def step (s : St) (op : List String) (impl : Option (List String)) : St × Strin
     let isLog := name == "lsew"
     (s, showRes showF (if isLog then LogSpace.logSumExpW v0 v1 else LogSpace.sumExpW v0 v1),
       dimOr v0 v1 fun _ => emptyOr v0 fun _ =>
-        if !(noNaN v0) || !(noNaN v1) then "ok" else
+        if !(noNaN v0) || !(noNaN v1) then "-" else
         let M := fmax v0
         if M.isInf && !(!isLog && v0.length == 1) then expectErr impl "log_inf_max" .badnumber
         else onScalar impl "lsew_spec" fun g =>
-          let terms := (List.zip v0 v1).map (fun p => p.2 * Float.exp p.1)
-          let naive := fsum terms
-          let mass := fsum (terms.map Float.abs)
-          if v0.all (fun x => x.abs ≤ 700.0) && v1.all (fun w => finite w && w ≥ 0.0) then
-            -- floating-point only (recorded finding): when every maximal entry has weight 0 the shift
-            -- by the maximum can underflow all the terms that carry weight
-            let zeroAtMax := (List.zip v0 v1).all (fun p => !(p.1 == M) || p.2 == 0.0)
-            if isLog then [(if zeroAtMax then "lsew_zero_weight_at_max" else "lsew_spec",
-                            naive == 0.0 || fclose g (Float.log naive)),
-                           -- lsew_bounds: at most max + ln Σw
-                           ("lsew_bounds", zeroAtMax || naive == 0.0 ||
-                              g ≤ M + Float.log (fsum v1) + 1e-9 * (1.0 + M.abs))]
-            else [("sumExpW_spec", fclose g naive)]
-          else if v0.all (fun x => x.abs ≤ 700.0 && M - x ≤ 600.0) && v1.all finite then
-            -- weights of either sign (lsew_sign_outcome): the logarithm of a positive weighted sum,
-            -- NaN for a negative one; judged when the sign is not rounding noise
-            if isLog then
-              (if naive > 1e-9 * mass then [("lsew_spec", fclose g (Float.log naive))]
-               else if naive < -(1e-9 * mass) then [("lsew_sign_outcome", g.isNaN)]
-               else [])
-            else [("sumExpW_spec", (g - naive).abs ≤ 1e-9 * mass)]
-          else [])
+          if !(v1.all finite) || !(v0.all (fun x => !(x.isInf && x > 0.0))) then [] else
+          -- log-domain reference over the WHOLE range: a_i = v_i + ln|w_i|, positive and negative part
+          let terms := (List.zip v0 v1).filter (fun p => p.2 != 0.0 && !p.1.isInf)
+          let a : List (Float × Bool) := terms.map (fun p => (p.1 + Float.log p.2.abs, decide (p.2 > 0.0)))
+          let part (sel : Bool) : Float :=
+            let l := (a.filter (fun q => q.2 == sel)).map (·.1)
+            if l.isEmpty then -(1.0 / 0.0) else
+              let L := fmax l
+              L + Float.log (fsum (l.map (fun x => Float.exp (x - L))))
+          let P := part true; let N := part false
+          -- the defect signature (known finding C07-lsew-shift-underflow): the code shifts by max(v)
+          -- whatever the weights; an entry whose contribution matters (a_i within 40 of the leading
+          -- one) but whose exp(v_i - M), or whose product w_i·exp(v_i - M), underflows or is denormal
+          -- (v_i - M < -700 or a_i - M < -700) is lost
+          let lead := if P > N then P else N
+          let lost := (List.zip terms a).any (fun q => (q.1.1 - M < -700.0 || q.2.1 - M < -700.0) && q.2.1 ≥ lead - 40.0)
+          let blame (c : String) : String := if lost then "lsew_shift_underflow" else c
+          -- the exact sum of the code's own terms overflows (weights near 1e308): outside this reference
+          let big := fsum (terms.map (fun p => p.2.abs)) > 1e300
+          if big then [] else
+          if isLog then
+            (if P > N + 1e-6 then
+               let ref := if N.isInf then P else P + Float.log (1.0 - Float.exp (N - P))
+               [(blame "lsew_spec", fclose g ref 1e-9),
+                -- lsew_bounds (non-negative weights): every positively weighted entry is a lower bound
+                (blame "lsew_bounds", !N.isInf || a.all (fun q => q.1 - 1e-9 * (1.0 + q.1.abs) ≤ g)),
+                (blame "explored_lsew_finite", finite g)]
+             else if N > P + 1e-6 then [(blame "lsew_sign_outcome", g.isNaN)]
+             else if P.isInf && N.isInf then [("lsew_sign_outcome", g.isInf && g < 0.0)]   -- all weights 0: ln 0
+             else [])
+          else
+            -- sumExp(v, w) = exp(reference) when that is a normal double and the final factor exp(M) neither
+            -- overflows nor underflows (|M| ≤ 700: outside, the linear-domain result x·exp(M) is not judged)
+            (if P > N + 1e-6 && M.abs ≤ 700.0 then
+               let ref := if N.isInf then P else P + Float.log (1.0 - Float.exp (N - P))
+               if ref.abs ≤ 700.0 then
+                 let want := Float.exp ref
+                 [(blame "sumExpW_spec", (g - want).abs ≤ 1e-9 * want)]
+               else []
+             else []))
   | "lognorm" =>
     (s, showRes showV (LogSpace.logNorm v0), emptyOr v0 fun _ => onVec impl "logNorm_spec" fun g =>
       if allFinite v0 then
